@@ -65,6 +65,10 @@ type kvElection struct {
 	disconnectHandler *disconnectHandler
 
 	healthFailureCount atomic.Int32
+
+	// acquiredWhileStopping is set when an acquiring write completed after a stop
+	// had begun: the promotion is refused, but the record exists in the store.
+	acquiredWhileStopping atomic.Bool
 }
 
 // leadershipPayload represents the value stored in the leadership key
@@ -193,6 +197,7 @@ func (e *kvElection) Start(ctx context.Context) error {
 	}
 
 	e.ctx, e.cancel = context.WithCancel(ctx)
+	e.acquiredWhileStopping.Store(false)
 
 	if e.connectionMonitor != nil {
 		if err := e.connectionMonitor.Start(ctx); err != nil {
@@ -388,6 +393,7 @@ func (e *kvElection) becomeLeader(token string, rev uint64) bool {
 	defer e.mu.Unlock()
 
 	if !e.running() {
+		e.acquiredWhileStopping.Store(true)
 		log := e.getLogger()
 		log.Warn("promotion_refused_election_stopped",
 			append(e.logWithContext(e.ctx),
@@ -761,7 +767,11 @@ func (e *kvElection) StopWithContext(ctx context.Context, opts StopOptions) erro
 		)...,
 	)
 
-	if opts.DeleteKey && wasLeader {
+	// Also delete a record that an in-flight acquisition created during the shutdown
+	// (its promotion was refused), so that a successor need not wait for the TTL.
+	acquiredWhileStopping := e.acquiredWhileStopping.Swap(false)
+
+	if opts.DeleteKey && (wasLeader || acquiredWhileStopping) {
 		if err := e.kv.Delete(e.key); err != nil {
 			log := e.getLogger()
 			log.Warn("key_deletion_failed",
